@@ -780,7 +780,27 @@ def hamiltonian_refresh(ctx) -> None:
                    "when the interaction matrix of the next step differs from the current one the Hamiltonian is not rebuilt "
                    "from the new matrix (or the new matrix is not remembered): the run keeps evolving with the SLM-masked "
                    "interactions after the mask has ended", entry=f.qualname)
-    ctx.require(changed >= 1 and same_ >= 1, "INTERACT-refresh: matrix comparison paths not found in timestep_complete")
+    # the change detection compares what is stored with what is fresh: if fetching the matrix also stores it (or the same
+    # value is passed twice) the comparison is vacuous and the Hamiltonian is never rebuilt
+    selfcmp = None
+    for p in it.run(f):
+        for c, t in p.cond_log:
+            c0 = strip_typed(c)
+            if c0[0] == "call" and c0[1] in ("torch.allclose", "torch.equal") and len(c0[2]) >= 2 and \
+                    canon(c0[2][0]) == canon(c0[2][1]):
+                selfcmp = show(c0)[:90]
+    getter = K.methods.get("_get_interaction_matrix")
+    stores = [] if getter is None else [n for n in ast.walk(getter.node) if isinstance(n, (ast.Assign, ast.AugAssign, ast.AnnAssign))
+                                        and any(isinstance(t_, ast.Attribute) and t_.attr == "current_interaction_matrix"
+                                                for t_ in (n.targets if isinstance(n, ast.Assign) else [n.target]))]
+    okv = selfcmp is None and not stores
+    ctx.ob("INTERACT-refresh", "change detection compares stored with fresh", f.loc(), okv,
+           "timestep_complete compares the remembered matrix with a freshly fetched one, and fetching does not store" if okv else
+           ("_get_interaction_matrix stores self.current_interaction_matrix" if stores else f"timestep_complete evaluates {selfcmp}")
+           + ": the comparison is between a matrix and itself, so the Hamiltonian is never rebuilt when the SLM mask ends",
+           entry=f.qualname)
+    if okv:
+        ctx.require(changed >= 1 and same_ >= 1, "INTERACT-refresh: matrix comparison paths not found in timestep_complete")
 
 
 def sv_initial_hamiltonian(ctx) -> None:
